@@ -108,8 +108,13 @@ func (l *liveServer) scenario(w *tr.W, st *stats, cls, cfg, mpd string, t1, t2 i
 	for k, v := range inputFlags(oldT, newT) {
 		p.extra[k] = v
 	}
-	// what the patch handler uses as base document: the MPD regenerated 1 ms after the advertised publishTime
-	cb, bb := l.get(fmt.Sprintf("%s?nowMS=%d", mpdURL, pt1.UnixMilli()+1))
+	// what the patch handler uses as base document: the MPD regenerated from the advertised publishTime
+	// (same request the handler makes internally: the patch location's own query, on the .mpd path)
+	q := ""
+	if i := strings.IndexByte(pl.Text, '?'); i >= 0 {
+		q = pl.Text[i:]
+	}
+	cb, bb := l.get(mpdURL + q)
 	if baseT, err := parseXML(bb); cb != 200 || err != nil || !baseT.equal(oldT) {
 		p.extra["baseDiffers"] = true
 		st.baseDiffers++
@@ -196,7 +201,7 @@ func runLive(w *tr.W, st *stats, rng *rand.Rand, perCfg int) error {
 	for k := 0; k < max(1, perCfg/2); k++ {
 		startS := (base+int64(rng.Intn(hour)))/1000 + 7
 		startS -= startS % 2
-		for _, tl := range []string{"segtimeline_1", "segtimelinenr_1", "segtimeline_1/periods_720"} {
+		for _, tl := range []string{"segtimeline_1", "segtimelinenr_1", "segtimeline_1/periods_900"} {
 			cfg := fmt.Sprintf("patch_60/start_%d/%s", startS, tl)
 			for _, d1 := range []int64{2500, 4500, 9000} {
 				for _, d2 := range []int64{2000, 6000, 14_000, 22_000, 30_000, 44_000, 58_000} {
